@@ -64,6 +64,34 @@ def raised(x):
   return isinstance(x, str) and x.startswith("<raises")
 
 
+E_NAMES = ("sid1", "sid2", "beg1", "end1", "beg2", "end2", "alignment")
+L_NAMES = ("record_type", "from_segment", "from_orient", "to_segment",
+           "to_orient", "overlap")
+C_NAMES = L_NAMES[:5] + ("pos", "overlap")
+
+
+def cmpf(chk, clause, label, names, exp, obs):
+  """Component-wise comparison; the names of the differing components go
+  into the field (and so into the key of the violation), so that different
+  root causes get different keys."""
+  exp = list(exp)
+  if exp == obs:
+    return
+  if isinstance(obs, list) and len(obs) == len(exp) == len(names):
+    d = []
+    for n, e, o in zip(names, exp, obs):
+      if e != o:
+        if e == str(o) + "$":
+          d.append(n + "[$ missing]")
+        elif str(e) + "$" == o:
+          d.append(n + "[$ not expected]")
+        else:
+          d.append(n)
+    chk(clause, label + ": " + ",".join(d), exp, obs)
+  else:
+    chk(clause, label, exp, obs)
+
+
 def lines_of(g):
   return [str(l) for l in g.lines]
 
@@ -144,10 +172,11 @@ def judge_1to2(case):
     obs = _try(lambda: [str(sl.sid1), str(sl.sid2), str(sl.beg1),
                         str(sl.end1), str(sl.beg2), str(sl.end2),
                         str(sl.alignment)])
-    chk("edge-view", f[0] + " line: sid1 sid2 beg1 end1 beg2 end2 alignment",
-        list(e[2:]), obs)
+    cmpf(chk, "edge-view", f[0] + " line seen as an edge", E_NAMES, e[2:],
+         obs)
     obs = _try(lambda: sl.to_gfa2_s().split("\t")[2:9])
-    chk("line-conversion", f[0] + " line.to_gfa2_s()", list(e[2:]), obs)
+    cmpf(chk, "line-conversion", f[0] + " line.to_gfa2_s()", E_NAMES, e[2:],
+         obs)
   # whole graph
   s2 = _try(lambda: g.to_gfa2_s())
   g2 = _try(lambda: g.to_gfa2())
@@ -194,8 +223,7 @@ def judge_1to2(case):
   eids = {}
   for ((f, tg, l), (e, etags), o) in zip(L + C, exp_e, oE):
     of, ot = split(o, "gfa2")
-    chk("edge", "{} -> E: sid1 sid2 beg1 end1 beg2 end2 alignment".format(
-        f[0]), list(e[2:]), of[2:])
+    cmpf(chk, "edge", f[0] + " -> E", E_NAMES, e[2:], of[2:])
     chk("tags", f[0] + " -> E: tags", etags, sorted(ot))
     if e[1] != "*":
       chk("edge-id", f[0] + " -> E: eid", e[1], of[1])
@@ -347,15 +375,16 @@ def judge_2to1(case):
       continue
     obs = _try(lambda: [el.from_segment.name, el.from_orient,
                         el.to_segment.name, el.to_orient, str(el.overlap)])
-    chk("edge-view", "E[{}]: from_segment from_orient to_segment to_orient "
-        "overlap".format(x[0]), [x[1], x[2], x[3], x[4], x[-1]], obs)
+    cmpf(chk, "edge-view", "E[{}] seen as a GFA1 edge".format(x[0]),
+         L_NAMES[1:], [x[1], x[2], x[3], x[4], x[-1]], obs)
     if x[0] == "C":
       chk("edge-view", "E[C]: pos", x[5], _try(lambda: str(int(el.pos))))
     else:
       r = _try(lambda: str(el.pos))
       chk("edge-view", "E[L]: pos is refused", True, raised(r))
-    chk("line-conversion", "E[{}] line.to_gfa1_s()".format(x[0]),
-        list(x), _try(lambda: el.to_gfa1_s().split("\t")[:len(x)]))
+    cmpf(chk, "line-conversion", "E[{}] line.to_gfa1_s()".format(x[0]),
+         L_NAMES if x[0] == "L" else C_NAMES, x,
+         _try(lambda: el.to_gfa1_s().split("\t")[:len(x)]))
   for f, tg, l in X:
     if f[0] in "H#":
       continue
@@ -393,7 +422,8 @@ def judge_2to1(case):
         [of[1], of[2], tag(ot, "LN"), without(ot, "LN")])
   for (x, (f, tg, l)), o in list(zip(eL, oL)) + list(zip(eC, oC)):
     of, ot = split(o, "gfa1")
-    chk("edge", "E -> {}".format(x[0]), list(x), of)
+    cmpf(chk, "edge", "E -> {}".format(x[0]),
+         L_NAMES if x[0] == "L" else C_NAMES, x, of)
     chk("tags", "E -> {}: tags".format(x[0]), sorted(tg), without(ot, "ID"))
     chk("edge-id", "E -> {}: ID tag".format(x[0]),
         None if f[1] == "*" else f[1], tag(ot, "ID"))
@@ -476,12 +506,12 @@ def seg1(name, with_seq, length=None, tags=()):
   return T(("S", name, "*", "LN:i:{}".format(n)) + tuple(tags))
 
 
-def cases_1to2_links(ops, lens, maxops):
+def cases_1to2_links(ops, lens, maxops, quick=False):
   cigs = R.all_cigars(ops, lens, maxops)
   for with_seq in (True, False):
     segs = [seg1("A", with_seq, tags=("xx:i:1",)), seg1("B", with_seq),
             seg1("C", with_seq)]
-    for named in (False, True):
+    for named in ((not with_seq,) if quick else (False, True)):
       tags = ("ID:Z:e1", "MQ:i:3", "xy:Z:t") if named else ()
       for f, t in (("A", "B"), ("B", "A"), ("A", "A")):
         for fo, to in ORIENTS:
@@ -501,12 +531,12 @@ def cases_1to2_links(ops, lens, maxops):
                    "meta": {}}
 
 
-def cases_1to2_containments(ops, lens, maxops):
+def cases_1to2_containments(ops, lens, maxops, quick=False):
   cigs = R.all_cigars(ops, lens, maxops)
   for with_seq in (True, False):
     segs = [seg1("A", with_seq), seg1("B", with_seq, tags=("xx:i:1",)),
             seg1("C", with_seq)]
-    for named in (False, True):
+    for named in ((not with_seq,) if quick else (False, True)):
       tags = ("ID:Z:c1", "NM:i:0") if named else ()
       for f, t in (("A", "C"), ("B", "C"), ("B", "A")):
         for fo, to in ORIENTS:
@@ -797,7 +827,9 @@ def run(ctx):
             "orientations": ["".join(o) for o in ORIENTS],
             "CIGAR": "all of <= {} ops over {} x {} that fit the "
                      "segments".format(maxops, ops, list(lens)),
-            "named/unnamed": ["ID:Z:e1 MQ:i:3 xy:Z:t", "no tags"]},
+            "named/unnamed": ["ID:Z:e1 MQ:i:3 xy:Z:t", "no tags"],
+            "restriction": "quick: sequence+unnamed and LN+named only"
+            if ctx.quick else "none"},
       "C": {"container/contained": ["A/C", "B/C", "B/A"],
             "pos": "0 .. len(container) - reference length",
             "CIGAR": "query length == length of the contained segment"},
@@ -833,8 +865,8 @@ def run(ctx):
       "assigned edge identifiers only have to be fresh",
       "records with GFA1-only CIGAR operations may be dropped or refused "
       "with a gfapy.Error"]
-  cases = list(cases_1to2_links(ops, lens, maxops)) + \
-      list(cases_1to2_containments(ops, lens, maxops)) + \
+  cases = list(cases_1to2_links(ops, lens, maxops, ctx.quick)) + \
+      list(cases_1to2_containments(ops, lens, maxops, ctx.quick)) + \
       list(cases_1to2_paths(ctx.quick)) + \
       list(cases_2to1_edges(ctx.quick)) + list(cases_2to1_other()) + \
       list(cases_2to1_paths())
@@ -849,9 +881,11 @@ def run(ctx):
     ctx.merge(r)
     for v in vs:
       fp = fingerprint(v["clause"], v["key"])
+      # cases are enumerated smallest first: keep the first 3 witnesses per
+      # (clause, direction, family, field), count the rest
       cls = (v["clause"], v["key"]["direction"], v["key"]["family"],
-             v["key"]["field"], v["key"]["cell"])
-      if fp in seen or per_class.get(cls, 0) >= 2:
+             v["key"]["field"])
+      if fp in seen or per_class.get(cls, 0) >= 3:
         dup += 1
         continue
       per_class[cls] = per_class.get(cls, 0) + 1
